@@ -280,10 +280,10 @@ fn run_tcp(c: &Case) -> Case {
         }
         out.ops.push(o2); out.outs.push(res);
     }
-    let drift = r.drift_bad;
+    // no reply of this family depends on the clock (deadlines are 100000 s away and PTTL is
+    // compared by sign), so a history is kept even when real time drifted from the logical clock
     let alive = r.finish();
     if !alive { out.ops.push(vec![b("ALIVE")]); out.outs.push(vec![i(0)]); }
-    if drift { out.id = format!("{}-DISCARD", out.id); }
     out
 }
 
